@@ -143,6 +143,8 @@ CONTROLS = [("K01", "round2/E", 1, "cpp.rs: three-valued State enum replaced by 
             ("K09", "round3/I", 7, "csleep(9): NOP; NOP; DEC DUMMY instead of DEC DUMMY; NOP; NOP"), ("K10", "round3/J", 7, "several small refactors of -D parsing, undefine, #ifdef state match, folding")]
 REBASED = {("round2/C", 2): "rebased/C_patch_2.diff", ("round3/G", 6): "rebased/G_patch_6.diff", ("round3/J", 7): "rebased/J_patch_7.diff"}
 
+BY_ID = {sid: (d, n) for (sid, d, n, *_rest) in SEEDS}
+BY_ID.update({sid: (d, n) for (sid, d, n, _w) in CONTROLS})
 conf = {}
 for fn in ("seed_confirm2.log", "seed_confirm3.log", "seed_confirm4.log", "seed_confirm5.log", "seed_confirm6.log"):
     for l in open(os.path.join(W, fn)):
@@ -163,7 +165,11 @@ for fn in sys.argv[1:]:
             if v == rel:
                 key = k
         if key is None and rel.startswith("../seeded/"):
-            key = ("round1", int(rel.split("/")[2][1:]))
+            sid = rel.split("/")[2]
+            key = BY_ID.get(sid, ("round1", int(sid[1:])) if sid[0] == "S" else None)
+        if key is None and rel.startswith("rebased2/"):
+            sid = os.path.basename(rel)[:-5]
+            key = BY_ID.get(sid, ("round1", int(sid[1:])) if sid[0] == "S" else None)
         if key is None:
             parts = rel.split("/")
             key = ("/".join(parts[:2]), int(parts[2].split("_")[1].split(".")[0]))
@@ -198,9 +204,15 @@ def save(sid, srcdir, n, meta, demo=True):
     src = os.path.join(W, REBASED.get((srcdir, n), "%s/patch_%d.diff" % (srcdir, n)))
     d, how = rebased_patch(src)
     if d is None:
-        print("!!", sid, "does not apply to HEAD")
-        return
-    open(os.path.join(out, "patch.diff"), "w").write(d)
+        # the agent's patch no longer applies: a version re-written by hand on the final tree may be stored already
+        stored = os.path.join(out, "patch.diff")
+        d2, _ = rebased_patch(stored) if os.path.exists(stored) else (None, None)
+        if d2 is None:
+            print("!!", sid, "does not apply to HEAD")
+            return
+        how = "re-written by hand on the final tree: fix: commits had changed the same lines"
+    else:
+        open(os.path.join(out, "patch.diff"), "w").write(d)
     if demo and os.path.exists(os.path.join(W, srcdir, "demo_%d.rs" % n)):
         shutil.copy(os.path.join(W, srcdir, "demo_%d.rs" % n), os.path.join(out, "demo.rs"))
     meta["patch_applies_to"] = "%s (%s%s)" % (head, how, "; hand-merged after a fix: commit touched the same lines" if (srcdir, n) in REBASED else "")
